@@ -33,6 +33,11 @@ CLAIMED = {
    "DESIGN.md §4 C08",
    "Trusted: reflect's documented truncation of SetInt/SetUint to the kind's width and bit-preserving Convert between float32 kinds (Go ≥ 1.15); idioms recognised are the switch-over-reflect.Kind forms used by the repository, anything else is undecided, not a pass.",
    "static: representation/width lint over typed syntax (go/types) and SSA conversion chains"),
+ "C14": ("other",
+   "Static decision of the structural clauses for every offset, size and limit: 64-bit width discipline on buffer indices/length (finds the 4GiB-boundary defects), exact-width bounds check dominating every host accessor, Grow's lock/overflow/notify discipline and the identical failure value at every engine call site, non-interference of the capacity flag on min/max over all syntactic paths of the sizer, and exhaustive evaluation of the reload-after-call guard over all flag assignments. Four genuine 4GiB-boundary defects that cannot be repaired without editing pinned tests or public API are listed as known findings. Contents after growth and emitted machine code are not decided.",
+   "DESIGN.md §4 C14",
+   "Trusted: idioms recognised (hasSize guard form, switch/if forms) – anything else is undecided; name anchors for the frontend's buffer-length offset constant; syntactic paths.",
+   "static: width/representation lint on typed syntax, must-pass-through guards, path-enumerating non-interference, finite-domain guard evaluation"),
 }
 
 NOT_APPLICABLE = {
